@@ -283,7 +283,7 @@ def scanned(tab, layer_cache):
 def coq_name(s):
     if all(0x20 <= ord(ch) <= 0x7e and ch != '"' for ch in s):
         return '"%s"' % s
-    return "(of_codes [%s])" % ";".join(str(b) for b in s.encode("utf-8", "surrogatepass"))
+    return "(of_codes [%s]%%N)" % ";".join(str(b) for b in s.encode("utf-8", "surrogatepass"))
 
 
 def coq_names(l):
